@@ -7,10 +7,12 @@
 //!         reached on every fair behaviour (Terminates).  A crash or timeout of the worker is a violation
 //!         (reported by the replay pool).
 //!         Programs with a *growing parameter on a call cycle* (the shape of the known finding
-//!         calibration-parameter-growth) are expanded in a helper process, one at a time, on a 2 MiB
+//!         calibration-parameter-growth) are expanded in a helper process, one at a time, on a 512 KiB
 //!         thread stack so that unbounded recursion is observed quickly; the death of the helper is the
-//!         tagged violation (the next such program gets a fresh helper).  Everything else runs in the
-//!         pool worker, where a crash stays untagged.
+//!         tagged violation (the next such program gets a fresh helper).  Programs for which the model
+//!         expects the recursive-calibration error run in the helper too (a missed re-entry recurses without
+//!         end; the helper shows that quickly), but their crash stays untagged.  Everything else runs in the
+//!         pool worker, where a crash stays untagged as well.
 //! drive:  the C17 driver with more cyclic programs; spec/trace/CalExpandTrace.tla judges with Judge = "C18".
 
 use super::c16::abs;
@@ -167,7 +169,7 @@ pub fn replay(ctx: &Ctx, case: &Value) -> Outcome {
     if ctx.mode == "C18.child" {
         // the answer travels in an Outcome: category in `divergences[0]`, depth in a counter
         let c2 = case.clone();
-        let h = std::thread::Builder::new().stack_size(2 << 20).spawn(move || expand_here(&c2)).expect("spawn thread");
+        let h = std::thread::Builder::new().stack_size(512 << 10).spawn(move || expand_here(&c2)).expect("spawn thread");
         let (cat, depth) = h.join().unwrap_or_else(|_| ("panic".to_string(), 0));
         let mut o = Outcome::ok(true);
         if cat == "panic" {
@@ -182,7 +184,11 @@ pub fn replay(ctx: &Ctx, case: &Value) -> Outcome {
     let growing = has_growing_cycle(&case);
     let cyc = case.get("cycle").and_then(|c| c.as_bool());
     let mut o = Outcome::ok(growing || cyc.unwrap_or(false));
-    let result = if growing {
+    // Programs that can make a broken expansion recurse without end go to the helper process (512 KiB thread
+    // stack, 20 s limit), so that such a crash is observed within a fraction of a second and does not cost a
+    // pool worker: the known-finding shape, and every program for which the model expects the
+    // recursive-calibration error (if the breadcrumb check misses the re-entry, the recursion never ends).
+    let result = if growing || cyc == Some(true) {
         o.count("own_child");
         expand_in_child(ctx, &case)
     } else {
@@ -191,12 +197,16 @@ pub fn replay(ctx: &Ctx, case: &Value) -> Outcome {
     let want = case.get("status").and_then(|s| s.as_str()).unwrap_or("");
     match result {
         Err(how) => {
-            // only reachable for the known shape: everything else runs in the pool worker itself
-            o.violate(
-                Violation::new("crash", json!("expanded program or recursive-calibration error"), json!(how))
+            // the helper died or did not answer: tagged only for the known-finding shape
+            let mut v = Violation::new("crash", json!("expanded program or recursive-calibration error"), json!(how));
+            if growing {
+                v = v
                     .note("a calibration re-invokes a gate with a parameter that grows on every expansion: no instruction repeats, the recursion never ends")
-                    .finding(FINDING),
-            );
+                    .finding(FINDING);
+            } else {
+                v = v.note("the expansion of a program without a growing parameter crashed or did not return (expected: the expanded program or the recursive-calibration error)");
+            }
+            o.violate(v);
         }
         Ok((cat, depth)) => {
             match (cat.as_str(), cyc) {
